@@ -1,4 +1,5 @@
 import subprocess, sys, os, re, json
+# usage: cp -r /repo /tmp/build_C10; python c10_faults.py [prefix|all]   (exact-string edits in the scratch copy, restored afterwards)
 REPO='/tmp/build_C10'
 IM=REPO+'/eqsig/im.py'
 orig=open('/repo/eqsig/im.py').read()
@@ -32,6 +33,24 @@ FAULTS=[
  ('I3 sig uses sd_start/sd_end left by generate_duration_stats for the default fractions', "    if im is None:\n        im_vals = calc_arias_intensity(asig)\n", "    if im is None and (start, end) == (0.05, 0.95) and getattr(asig, 'sd_end', 0.0) != 0.0:\n        return (asig.sd_start, asig.sd_end) if se else asig.sd_end - asig.sd_start\n    if im is None:\n        im_vals = calc_arias_intensity(asig)\n"),
  ('J vals first index off by one (start uses >= first+1)', "    start_time = ind2[0][0] * dt\n    end_time = ind2[0][-1] * dt\n\n", "    start_time = (ind2[0][0] + 1) * dt\n    end_time = ind2[0][-1] * dt\n\n"),
  ('K sig first index via searchsorted on end only (last = first index >= end*tot, minus 0)', "    end_time = ind2[0][-1] * asig.dt\n", "    end_time = np.searchsorted(im_vals, end * im_vals[-1]) * asig.dt\n"),
+ ('L1 seeded C10-C isclose guard', "    ind2 = np.where((cum_acc2 > start * cum_acc2[-1]) & (cum_acc2 < end * cum_acc2[-1]))\n", "    if np.isclose(cum_acc2[-1], 0.0):\n        return (0.0, 0.0) if se else 0.0\n    ind2 = np.where((cum_acc2 > start * cum_acc2[-1]) & (cum_acc2 < end * cum_acc2[-1]))\n"),
+ ('L2 vals squares in the caller dtype again', "np.cumsum(np.asarray(motion, dtype=float) ** 2)", "np.cumsum(np.asarray(motion) ** 2)"),
+ ('L3 brac flips the sign of the stored values (argument mutated, same answer)', "    abs_motion = abs(asig.values)\n\n    time = np.arange(asig.npts) * asig.dt\n", "    abs_motion = abs(asig.values)\n    if asig.values.flags.writeable:\n        np.negative(asig.values, out=asig.values)\n\n    time = np.arange(asig.npts) * asig.dt\n"),
+ ('L4 vals normalises its argument in place', "    cum_acc2 = np.cumsum(np.asarray(motion, dtype=float) ** 2)\n", "    if isinstance(motion, np.ndarray) and motion.dtype == float and motion.flags.writeable and len(motion) > 3:\n        motion /= np.max(np.abs(motion)) or 1.0\n    cum_acc2 = np.cumsum(np.asarray(motion, dtype=float) ** 2)\n"),
+ ('L5 sig start=0 treated as default', S1, "    if not start:\n        start = 0.05\n" + S1),
+ ('L6 vals scratch buffer reused across calls of equal length', "    cum_acc2 = np.cumsum(np.asarray(motion, dtype=float) ** 2)\n", "    global _SCRATCH\n    try:\n        _SCRATCH\n    except NameError:\n        _SCRATCH = {}\n    n_ = len(motion)\n    if n_ in _SCRATCH and n_ > 40:\n        cum_acc2 = _SCRATCH[n_]\n    else:\n        cum_acc2 = np.cumsum(np.asarray(motion, dtype=float) ** 2)\n        _SCRATCH[n_] = cum_acc2\n"),
+ ('L7 brac time from float32 for long records', "    time = np.arange(asig.npts) * asig.dt\n    # Bracketed duration", "    time = np.arange(asig.npts) * asig.dt\n    if asig.npts > 2 ** 16:\n        time = time.astype(np.float32).astype(float)\n    # Bracketed duration"),
+ ('L8 brac absolute-epsilon threshold', "    ind01 = np.where(abs_motion > threshold)\n    time2 = time[ind01]\n    try:\n        if se:", "    ind01 = np.where(abs_motion > threshold + 1e-10)\n    time2 = time[ind01]\n    try:\n        if se:"),
+ ('L9 brac single sample record returns None', "    try:\n        if se:\n            return time2[0], time2[-1]\n", "    try:\n        if asig.npts < 2:\n            raise IndexError\n        if se:\n            return time2[0], time2[-1]\n"),
+ ('M1 seeded C10-F: two searchsorted bisections instead of the mask (non-monotone custom measures)', S1 + "    start_time = ind2[0][0] * asig.dt\n    end_time = ind2[0][-1] * asig.dt\n", "    im_vals = np.asarray(im_vals)\n    i0 = np.searchsorted(im_vals, start * im_vals[-1], side='right')\n    i1 = np.searchsorted(im_vals, end * im_vals[-1], side='left') - 1\n    if i1 < i0:\n        raise IndexError('empty')\n    start_time = i0 * asig.dt\n    end_time = i1 * asig.dt\n"),
+ ('N1 item 10: brac threshold + 1e-9*peak (dynamic range inside one record)', "    ind01 = np.where(abs_motion > threshold)\n    time2 = time[ind01]\n    try:\n        if se:", "    ind01 = np.where(abs_motion > threshold + 1e-9 * abs_motion.max())\n    time2 = time[ind01]\n    try:\n        if se:"),
+ ('N2 item 10: vals lower bound + 1e-13*total (needs the local-scale band)', V1, V1.replace("cum_acc2 > start * cum_acc2[-1]", "cum_acc2 > start * cum_acc2[-1] + 1e-13 * cum_acc2[-1]")),
+ ('N3 item 9/11: brac time vector sized from duration/dt (last sample exceeds, quotient lands one off)', "    abs_motion = abs(asig.values)\n\n    time = np.arange(asig.npts) * asig.dt\n", "    abs_motion = abs(asig.values)\n\n    time = np.arange(int(asig.time[-1] / asig.dt) + 1) * asig.dt\n"),
+ ('N4 item 12: calc_sig_dur marks the velocity cache valid (object observable changes, durations do not)', "    if im is None:\n        im_vals = calc_arias_intensity(asig)\n", "    asig._cached_disp_and_velo = True\n    if im is None:\n        im_vals = calc_arias_intensity(asig)\n"),
+ ('N5 item 13: brac |a| as sqrt(a**2) (wrong only for the complex records of fas2signal)', "    abs_motion = abs(asig.values)\n\n    time = np.arange(asig.npts) * asig.dt\n", "    abs_motion = np.sqrt(asig.values ** 2)\n\n    time = np.arange(asig.npts) * asig.dt\n"),
+ ('N7 item 14: generate_duration_stats stores (end, start) swapped', 'eqsig/single.py', "        self.sd_start, self.sd_end = im.calc_sig_dur_vals(self.values, self.dt, se=True)\n", "        self.sd_end, self.sd_start = im.calc_sig_dur_vals(self.values, self.dt, se=True)\n"),
+ ('N8 item 11: vals works on the non-zero samples only and forgets to map the indices back (exact zeros inside)', "    cum_acc2 = np.cumsum(np.asarray(motion, dtype=float) ** 2)\n", "    motion = np.asarray(motion, dtype=float)\n    if len(motion) > 4 and motion[0] != 0 and motion[-1] != 0:\n        motion = motion[motion != 0]\n    cum_acc2 = np.cumsum(np.asarray(motion, dtype=float) ** 2)\n"),
+ ('N9 item 12: calc_brac_dur re-labels the object it analysed', "    abs_motion = abs(asig.values)\n\n    time = np.arange(asig.npts) * asig.dt\n", "    abs_motion = abs(asig.values)\n    asig.label = 'bracketed'\n\n    time = np.arange(asig.npts) * asig.dt\n"),
 ]
 QUIET=[
  ('Q1 vals flatnonzero + (last-first)*dt', "    ind2 = np.where((cum_acc2 > start * cum_acc2[-1]) & (cum_acc2 < end * cum_acc2[-1]))\n    start_time = ind2[0][0] * dt\n    end_time = ind2[0][-1] * dt\n\n    if se:\n        return start_time, end_time\n    return end_time - start_time\n",
@@ -45,15 +64,18 @@ which = sys.argv[1] if len(sys.argv) > 1 else 'all'
 env=dict(os.environ, EQSIG_REPO=REPO)
 rows=[]
 for group, lst, expect in (('FAULT', FAULTS, 1), ('QUIET', QUIET, 0)):
-    for name, old, new in lst:
+    for item in lst:
+        name, old, new = item[0], item[-2], item[-1]
+        rel = item[1] if len(item) == 4 else 'eqsig/im.py'
         if which != 'all' and not name.startswith(which):
             continue
-        assert orig.count(old) == 1, (name, orig.count(old))
-        open(IM,'w').write(orig.replace(old, new))
+        o = open('/repo/' + rel).read()
+        assert o.count(old) == 1, (name, o.count(old))
+        open(REPO + '/' + rel, 'w').write(o.replace(old, new))
         try:
             p=subprocess.run(['./check','C10'], cwd='/verif', env=env, capture_output=True, text=True)
         finally:
-            open(IM,'w').write(orig)
+            open(REPO + '/' + rel, 'w').write(o)
         out=p.stdout
         viol=[l.strip() for l in out.splitlines() if re.search(r'violated=[1-9]', l)]
         rep=[l for l in out.splitlines() if l.startswith('VIOLATION')]
